@@ -94,6 +94,8 @@ static void mode_mixed(void)
 {
         int nthr = (int) arg_int("--threads", 8);
         uint64_t nops = g_count;
+        /* the families other than the one this host would pick run the same workload when the virtual CPU says so */
+        { const char *vc = arg_str("--vcpu", "host"); if (strcmp(vc, "host")) force_vcpu(vc); }
         uint64_t **alone = calloc((size_t) nthr, sizeof *alone), **conc = calloc((size_t) nthr, sizeof *conc);
         struct marg *A = calloc((size_t) nthr, sizeof *A);
         for (int t = 0; t < nthr; t++) { alone[t] = calloc(nops, 8); conc[t] = calloc(nops, 8); A[t] = (struct marg) { t, nops, alone[t], NULL }; mixed_thread(&A[t]); }
